@@ -195,13 +195,19 @@ PROPS["C04"]["theorems"] += ["Toxi.Link.C04_exec", "Toxi.Link.t_exec", "Toxi.Lin
                              "Toxi.Link.same_stageMove", "Toxi.Link.same_sinkMove", "Toxi.Link.same_bufferMove", "Toxi.Link.same_sourceMove"]
 # C15: the graceful end of a connection (Proofs/Lemmas/Graceful.lean)
 def _c15_extra():
-    PROPS["C15"]["lean_modules"] = PROPS["C15"]["lean_modules"] + ["Toxi.Proofs.Lemmas.Graceful"]
+    PROPS["C15"]["lean_modules"] = PROPS["C15"]["lean_modules"] + ["Toxi.Proofs.Lemmas.Graceful", "Toxi.Proofs.Lemmas.Rest"]
     PROPS["C15"]["theorems"] = PROPS["C15"]["theorems"] + ["Toxi.Link.C15_move_graceful", "Toxi.Link.C15_settle_graceful",
-                                                           "Toxi.Link.C15_graceful_end", "Toxi.Link.GInv_new", "Toxi.Link.GInv_env"]
+                                                           "Toxi.Link.C15_graceful_end", "Toxi.Link.GInv_new", "Toxi.Link.GInv_env",
+                                                           "Toxi.Link.C15_move_shape", "Toxi.Link.C15_move_sq", "Toxi.Link.C15_at_rest",
+                                                           "Toxi.Link.C15_exec", "Toxi.Link.C15_nothing_left", "Toxi.Toxic.step_plain",
+                                                           "Toxi.Link.EInv_new", "Toxi.Link.ExR.exec3"]
 PROPS["C14"]["engines"] = PROPS["C14"]["engines"] + [{"engine": "e3", "gotest": True, "args": ["-props", "C14"], "tag": "C14link"}]
 PROPS["C14"]["model_scope"] += "; toxic_collection.go UpdateToxicJson -> chainUpdateToxic -> link.UpdateToxic (restart with a fresh draw) via the link model (E3)"
 PROPS["C11"]["engines"] = PROPS["C11"]["engines"] + [{"engine": "e3", "gotest": True, "args": ["-props", "C11", "-mode", "all"], "tag": "C11link"}]
 PROPS["C10"]["engines"] = PROPS["C10"]["engines"] + [{"engine": "e3", "gotest": True, "args": ["-props", "C10", "-mode", "all"], "tag": "C10link"}]
+# C08 at link level: the latency toxic behind its 1024-entry buffer, on connections made before and after updates
+PROPS["C08"]["engines"] = PROPS["C08"]["engines"] + [{"engine": "e3", "gotest": True, "args": ["-props", "C08", "-mode", "preserving"], "tag": "C08link"}]
+PROPS["C08"]["model_scope"] += "; link.go NewToxicLink (input channel sized by the chain entry's BufferSize) and toxic_collection.go UpdateToxicJson via the link model (E3: the same burst on a connection made before and one made after the change)"
 
 
 _E6_ASSUME = [
